@@ -307,6 +307,10 @@ class Executor:
             k = inner.key()
             if k in st.refs:
                 return st.refs[k]
+            if st.alias.get(k, "").startswith("call:"):
+                # pointer returned by a pure call: memory is rooted at the call, so that two calls
+                # with identical arguments denote the same object
+                return Place("*" + st.alias[k])
             # reference-typed argument / unknown pointer: memory rooted at that name
             return Place("*" + k)
         if kind == "field":
